@@ -1047,6 +1047,116 @@ def simple_nodes(run, model, rule="C06.node-semantics"):
         run.check(ok, rule, fi.qual, "keys paired with values in order", "the dictionary display is not re-computed as {visit(key): visit(value)} over zip(node.keys, node.values)", fi.loc())
 
 
+def formatted_value(run, model, rule="C06.fstring-format"):
+    """A field of an f-string is re-computed the way Python evaluates it: the value, then the conversion
+    (``!s`` -> str, ``!r`` -> repr, ``!a`` -> ascii, none -> the value itself), then ``format(converted, spec)`` with
+    the re-computed specification (the empty string if there is none) -- not ``str(value)`` (a value may define
+    ``__format__``), and not through a ``str.format`` template assembled from the specification (braces in the value of
+    a nested field would be parsed as fields)."""
+    fi = model.method("_recompute", "Visitor", "visit_FormattedValue")
+    flow = get_flow(model, fi)
+    run.saw(flow)
+    ps = tables.paths(flow)
+    NODE = ("param", fi.params[1])
+    VAL = ("call", ("attr", ("param", "self"), "visit"), (("attr", NODE, "value"),), ())
+    SPEC = ("call", ("attr", ("param", "self"), "visit"), (("attr", NODE, "format_spec"),), ())
+    convs = {-1: None, 115: "str", 114: "repr", 97: "ascii"}
+
+    def table_lookup(t, c):
+        """``TABLE.get(node.conversion)`` / ``TABLE[node.conversion]`` over a module-level literal dict, under conversion c:
+        ('hit', term of the value) / ('miss',) / None when the term is no such look-up"""
+        key = cont = None
+        if t[0] == "call" and t[1][0] == "attr" and t[1][2] == "get" and len(t[2]) in (1, 2) and t[2][0] == ("attr", NODE, "conversion"):
+            key, cont = t[2][0], t[1][1]
+        elif t[0] == "idx" and t[2] == ("attr", NODE, "conversion"):
+            key, cont = t[2], t[1]
+        if cont is None or cont[0] != "global":
+            return None
+        vals = model.modules[cont[1]].assigns.get(cont[2], []) if cont[1] in model.modules else []
+        if len(vals) != 1 or not isinstance(vals[0], ast.Dict):
+            return None
+        # never mutated: the name is only read
+        for k_, v_ in zip(vals[0].keys, vals[0].values):
+            kk = const_int(strip_sites(flow.term(k_, flow.cfg.entry))) if k_ is not None else None
+            if kk is None:
+                return None
+            if kk == c:
+                return ("hit", ("builtin", v_.id) if isinstance(v_, ast.Name) else strip_sites(flow.term(v_, flow.cfg.entry)))
+        return ("miss",)
+
+    def const_int(t):
+        if t[0] == "const":
+            try:
+                return int(t[1])
+            except ValueError:
+                return None
+        if t[0] == "op" and t[1] == "USub" and t[2][0][0] == "const":
+            try:
+                return -int(t[2][0][1])
+            except ValueError:
+                return None
+        return None
+
+    for has_spec in (True, False):
+        for c, fn in sorted(convs.items()):
+            def ev(t, has_spec=has_spec, c=c):
+                ts = strip_sites(t)
+                if ts[0] == "op" and ts[1] in ("cmp:IsNot", "cmp:Is") and ts[2][1] == ("const", "None"):
+                    l = ts[2][0]
+                    tl = table_lookup(l, c)
+                    if tl is not None:
+                        isnone = tl[0] == "miss"
+                        return isnone if ts[1] == "cmp:Is" else not isnone
+                    if l == ("attr", NODE, "format_spec"):
+                        isnone = not has_spec
+                    elif l == ("const", "None"):
+                        isnone = True
+                    elif l == SPEC:
+                        isnone = False
+                    else:
+                        return None
+                    return isnone if ts[1] == "cmp:Is" else not isnone
+                if ts[0] == "op" and ts[1] == "cmp:Is" and "PLACEHOLDER" in show(ts[2][1]):
+                    return False
+                if ts[0] == "call" and ts[1] == ("builtin", "isinstance"):
+                    return True
+                if ts[0] == "op" and ts[1] in ("cmp:Eq", "cmp:NotEq") and ts[2][0] == ("attr", NODE, "conversion"):
+                    k = const_int(ts[2][1])
+                    if k is None:
+                        return None
+                    return (k == c) if ts[1] == "cmp:Eq" else (k != c)
+                return None
+
+            def norm(t):
+                t = strip_sites(t)
+                while t[0] == "op" and t[1] == "ifexp":
+                    v = tables.evaluate(t[2][0], ev)
+                    if v is None:
+                        break
+                    t = t[2][1] if v else t[2][2]
+                tl = table_lookup(t, c)
+                if tl is not None and tl[0] == "hit":
+                    return tl[1]
+                if t[0] == "call":
+                    return (t[0], norm(t[1]) if t[1][0] in ("call", "idx") else t[1], tuple(norm(x) for x in t[2]), tuple((k_, norm(v_)) for k_, v_ in t[3]))
+                return t
+
+            # the paths that answer "unknown" (the marker) are the business of the placeholder rules
+            feas = [p for p in ps if tables.feasible(p, ev) and not (p.outcome is not None and p.outcome[0] == "return" and "PLACEHOLDER" in show(strip_sites(p.outcome[1]), 60) and strip_sites(p.outcome[1])[0] in ("global", "attr"))]
+            conv_v = VAL if fn is None else ("call", ("builtin", fn), (VAL,), ())
+            want = ("call", ("builtin", "format"), (conv_v, SPEC if has_spec else ("const", "''")), ())
+            construct = "%s[conversion %s, format specification %s]" % (fi.qual, {None: "none"}.get(fn, "!" + (fn or "")[:1]), "given" if has_spec else "none")
+            bad = None
+            rets = [p for p in feas if p.outcome is not None and p.outcome[0] == "return"]
+            if not rets or len(rets) != len(feas):
+                bad = "outcomes %s (expected the formatted value to be returned)" % sorted(set(tables.classify(p) for p in feas))
+            for p in rets:
+                got = norm(p.outcome[1])
+                if got != want and bad is None:
+                    bad = "the field is re-computed as %s, but Python evaluates %s" % (show(got, 90), show(want, 90))
+            run.check(bad is None, rule, construct, "re-computed as %s" % show(want, 80), bad or "", fi.loc(), None, construct.split("[", 1)[1])
+
+
 def lambda_location(run, model, rule="C07.text"):
     """find_lambda_condition takes the first positional argument of the decorator call, else the keyword `condition`."""
     fi = model.func("_represent.find_lambda_condition")
